@@ -118,7 +118,7 @@ def assume_spec_shape(eng, st, v):
     # class attributes (metadata records, methods, defaults ...) are objects that existed before the call
     cq, sq = z3.Int("c!ca"), z3.Int("s!ca")
     st.assume(z3.ForAll([cq, sq], z3.Implies(is_ref(clsattr(cq, sq)), z3.And(a_of(clsattr(cq, sq)) >= 0,
-                                                                            a_of(clsattr(cq, sq)) < st.alloc)),
+                                                                            a_of(clsattr(cq, sq)) < z3.Int("alloc0"))),
                         patterns=[clsattr(cq, sq)]))
 
 
@@ -178,7 +178,8 @@ def raw_setattr(eng, st, pos, kw, fx):
     name = eng.to_val(st, name)
     val = eng.to_val(st, val)
     out = []
-    for s2, ro in eng.split(st, masked_ro(obj, name, st), note="descriptor refuses assignment"):
+    # numbers, strings, None, class atoms and the (A-LEAF) instances of immutable scalar types accept no attributes
+    for s2, ro in eng.split(st, z3.Or(z3.Not(is_ref(obj)), leaf(st, obj), masked_ro(obj, name, st)), note="descriptor refuses assignment"):
         if ro:
             out.append(eng.exc(s2, "AttributeError", note="can't set attribute"))
         else:
@@ -205,6 +206,8 @@ def raw_delattr(eng, st, pos, kw, fx):
 def dyn_setattr(eng, st, obj, name, val, fx):
     """setattr(obj, name, val) on an arbitrary object: spec instances go through their generated
     __setattr__ (contract); other objects store into their dict"""
+    if isinstance(obj, PClass):
+        obj = eng.to_val(st, obj)
     if not is_val(obj):
         return None
     name = eng.to_val(st, name) if not isinstance(name, str) else STR.val(name)
@@ -924,7 +927,9 @@ class SetAttr(GenMethod):
                 ("c05.others", z3.Implies(z3.Not(noop), frame_slots(eng, st, c.post, o, o, a, True, None,
                                                                      skip=z3.Or(skip, z3.Not(has_deps))))),
                 ("c11.invalidated", z3.Implies(z3.And(z3.Not(noop), z3.Not(skip), has_deps), all_cleared(eng, st, c.post, o, o, a))),
-                ("c11.monotone", monotone(eng, st, c.post, o, but=a))]
+                ("c11.monotone", monotone(eng, st, c.post, o, but=a)),
+                # the instance never acquires (or loses) an instance-level __spec_class__: it stays an instance of its spec class
+                ("c05.meta-slot", fld(c.post, o, "__spec_class__") == fld(st, o, "__spec_class__"))]
 
     def exc_frozen(self, c):
         eng, st, o = c.eng, c.pre, c.self
